@@ -155,7 +155,7 @@ func (br *boundsRun) install(in *sym.Interp, assume []*sym.Term) {
 		sr.evaluated++
 		b := &boundsCtx{fr: fr, post: map[string]*sym.Term{}}
 		g := guardOf(fr)
-		b.lits = append(b.lits, guardLits(g)...)
+		b.lits = append(b.lits, impliedFacts(guardLits(g))...)
 		b.lits = append(b.lits, assume...)
 		for _, ev := range in.Events {
 			if ev.Kind == "consume" && ev.Result != nil && ev.Result.Op == "tuple" && len(ev.Args) >= 1 {
@@ -297,7 +297,7 @@ func (c *Ctx) boundsRule(printerPart bool) {
 					okPost, detail = false, "byte count "+shortKey(lf.Val.Args[1])
 					continue
 				}
-				b := &boundsCtx{fr: fr, lits: lf.Conds}
+				b := &boundsCtx{fr: fr, lits: impliedFacts(lf.Conds)}
 				if lo := b.lenLower(lenb); lo == nil || lo.Cmp(n) < 0 {
 					okPost, detail = false, fmt.Sprintf("returns n=%s where only len(b) >= %v is known (%s)", n, lo, c.Pos(ev.Site))
 				}
